@@ -63,6 +63,8 @@ class C16(F.Spec):
             yield self.gen_stream(rng, i)
         for i in range(40 if tier == "quick" else 500):
             yield self.gen_big(rng, i)
+        for i in range(80 if tier == "quick" else 1200):
+            yield self.gen_mixed(rng, i)
 
     def gen_unpack(self, rng, i):
         ops, tags = [], []
@@ -120,7 +122,7 @@ class C16(F.Spec):
                 n = rng.choice([1, 2, 3, 5, 9, 17, 40, 100, 300])
                 segs.append(stream[j:j + n])
                 j += n
-        ops = ["start", "connected"]
+        ops = ["start", "connected", "mqlog 1"]
         for sgm in segs:
             ops.append("seg " + sgm.hex())
             if rng.random() < .3:
@@ -128,6 +130,49 @@ class C16(F.Spec):
         ops.append("adv 200")
         return F.Case("stream%d-%s" % (i, style), ops, {"tags": ["stream:" + style], "kind": "stream",
                                                         "pubs": [(q, t.hex(), p.hex(), pid) for q, t, p, pid in pubs]})
+
+    def gen_mixed(self, rng, i):
+        """every packet type the broker may send, acknowledgements of things never sent, malformed packets and
+        publishes up to the size of the receive buffer, in segments of 1..1460 bytes (also larger than the free space)"""
+        pubs, stream = [], CONNACK
+        tags = set()
+        for k in range(rng.randint(1, 8)):
+            r = rng.random()
+            if r < 0.55:
+                sz = rng.choice(["s", "s", "m", "l"])
+                t = PREFIX + b"/channels/%d/set/on" % rng.randint(0, 9) if rng.random() < .5 else bytes(rng.choice(b"abc/") for _ in range(rng.randint(1, 30)))
+                n = {"s": rng.randint(0, 40), "m": rng.randint(100, 500), "l": rng.randint(850, 1010)}[sz]
+                pl = bytes(rng.choice(b"01xyz") for _ in range(n))
+                qos = rng.choice([0, 0, 1, 2])
+                pid = rng.choice([7, 8, rng.randint(1, 65535)])
+                pubs.append((qos, t, pl, pid))
+                stream += publish(t, pl, qos, pid)
+                tags.add("pub" + sz)
+            else:
+                kind = rng.choice(["pingresp", "puback", "suback", "connack", "pubrel", "pubrec", "pubcomp", "unsuback", "reserved",
+                                   "badflags", "badlen", "pinglen", "longrem"])
+                tags.add(kind)
+                stream += {"pingresp": PINGRESP, "puback": bytes([0x40, 2, 0, 9]), "suback": suback(rng.randint(1, 9)),
+                           "connack": CONNACK, "pubrel": bytes([0x62, 2, 0, 9]), "pubrec": bytes([0x50, 2, 0, 9]),
+                           "pubcomp": bytes([0x70, 2, 0, 9]), "unsuback": bytes([0xb0, 2, 0, 9]),
+                           "reserved": bytes([rng.choice([0x00, 0xf0]), 0]), "badflags": bytes([0x41, 2, 0, 9]),
+                           "badlen": bytes([0x40, 3, 0, 9, 1]), "pinglen": bytes([0xd0, 2, 0x30, 0]),
+                           "longrem": bytes([0x30, 0x80, 0x80, 0x80, 0x80, 1])}[kind]
+        segs, j = [], 0
+        style = rng.choice(["small", "mss", "any"])
+        while j < len(stream):
+            n = {"small": rng.choice([1, 2, 3, 7, 20, 60]), "mss": rng.choice([536, 1000, 1200, 1460]),
+                 "any": rng.randint(1, 1460)}[style]
+            segs.append(stream[j:j + n])
+            j += n
+        ops = ["start", "connected", "mqlog 1"]
+        for sgm in segs:
+            ops.append("seg " + sgm.hex())
+            if rng.random() < .3:
+                ops.append("adv %d" % rng.choice([10, 60, 120]))
+        ops += ["adv 200"]
+        return F.Case("mixed%d-%s" % (i, style), ops, {"tags": ["stream:mixed", "seg:" + style] + sorted("p:" + t for t in tags), "kind": "mixed", "noshrink": True,
+                                                       "pubs": [(q, tt.hex(), p.hex(), pid) for q, tt, p, pid in pubs]})
 
     def gen_big(self, rng, i):
         """packets around and above the size of the receive buffer (1024), in MSS-sized segments"""
@@ -154,7 +199,7 @@ class C16(F.Spec):
             n = rng.choice([536, 600, 1000, 1460, 300, rng.randint(1, 700)])
             segs.append(stream[j:j + n])
             j += n
-        ops = ["start", "connected"]
+        ops = ["start", "connected", "mqlog 1"]
         for sgm in segs:
             ops.append("seg " + sgm.hex())
             if rng.random() < .3:
@@ -162,6 +207,56 @@ class C16(F.Spec):
         ops += ["adv 200", "adv 35000", "adv 200"]
         return F.Case("big%d-%d" % (i, len(big)), ops, {"tags": ["stream:big", "size:%d" % (len(big) // 100 * 100)], "kind": "big", "biglen": len(big), "noshrink": True,
                                                        "pubs": [(q, tt.hex(), p.hex(), pid) for q, tt, p, pid in pubs]})
+
+    def derive_model(self, case, raw):
+        """the model gets the same segments; the handler's verdict for every handled packet and the number of receive
+        passes of timer-driven syncs are taken from the hooks in __mqtt_recv; it must reproduce which packets are
+        handled (type, length) and what stays in the buffer, the error and gap flags"""
+        ops, exp = [], []
+        err = "0"
+        live = False
+        for op, g in zip(case.ops, raw):
+            t = op.split()
+            if t[0] == "unpack":
+                ops.append(op)
+                exp.append(self.canon_impl([g])[0])
+                want = "PARSE ?"
+                for x in g:
+                    if x.startswith("UNPACK "):
+                        c = int(x.split()[1])
+                        want = "PARSE ERR" if c < 0 else "PARSE %d" % c
+                ops.append("parse " + t[1])
+                exp.append([want])
+                continue
+            if t[0] == "connected":
+                ops.append("reset")
+                exp.append([])
+                live = True
+                continue
+            if t[0] == "mqlog":
+                for x in g:
+                    if x.startswith("RECVSTATE "):
+                        err = x.split()[2].split("=")[1]
+                continue
+            if not live or t[0] not in ("seg", "adv"):
+                continue
+            if any(x.startswith(("CONNECT ", "DISCONNECT")) for x in g):
+                break           # the client gave the connection up and started a new one: the model covers one connection
+            mqh = [x for x in g if x.startswith("MQH ")]
+            state = [x for x in g if x.startswith("RECVSTATE ")]
+            if not state:
+                break           # hooks not switched on in this case
+            v = "".join(x.split()[3] for x in mqh) or "-"
+            if t[0] == "seg":
+                ops.append("seg %s %s %s" % (t[1], err, v))
+                exp.append(mqh + [state[-1]])
+            else:
+                k = sum(1 for x in g if x == "MQSYNC")
+                ops.append("sync %d %s %s" % (k, err, v))
+                p = state[-1].split()
+                exp.append(mqh + ["%s %s %s" % (p[0], p[1], p[3])])
+            err = state[-1].split()[2].split("=")[1]
+        return "\n".join(ops) + "\n", exp
 
     def canon_impl(self, groups):
         out = []
@@ -190,7 +285,7 @@ class C16(F.Spec):
                 if x.startswith("UNPACK ERR"):
                     p = x.split()
                     h.append("UNPACK ERR " + p[2] if len(p) > 2 and p[2] in ("forbiddenType", "invalidFlags") else "UNPACK ERR")
-                elif x.startswith("UNPACK"):
+                elif x.startswith(("UNPACK", "PARSE", "MQH ", "RECVSTATE ")):
                     h.append(x)
             out.append(h)
         return out
@@ -232,6 +327,23 @@ class C16(F.Spec):
                         fs.append(F.Finding("missing-ack", "QoS 1 publish %d not acknowledged with PUBACK" % pid))
                     if q == 2 and (5, pid) not in acks:
                         fs.append(F.Finding("missing-ack", "QoS 2 publish %d not acknowledged with PUBREC" % pid))
+        if case.meta.get("kind") == "mixed":
+            got = []
+            for g in raw:
+                for x in g:
+                    if x.startswith("PUB "):
+                        p = x.split()
+                        got.append((int(p[2]), p[4] if p[4] != "-" else "", p[5] if p[5] != "-" else ""))
+            want = [(q, t, p) for q, t, p, pid in case.meta.get("pubs", [])]
+            j = 0
+            for gq in got:          # callbacks are, in order, publishes the broker sent: none invented, none repeated
+                while j < len(want) and want[j] != gq:
+                    j += 1
+                if j == len(want):
+                    fs.append(F.Finding("publish-delivery", "callback %s is not (or not in order) one of the PUBLISH packets sent"
+                                        % ((gq[0], gq[1][-12:], gq[2][:8]),)))
+                    break
+                j += 1
         if case.meta.get("kind") == "big":
             got = []
             for g in raw:
